@@ -187,7 +187,10 @@ pub fn check(case: &CplxCase, claim: Claim, out: &mut Outcome) -> Result<(), Fai
     let states = states_of(case)?;
     let (n, m, s) = (case.n, case.m(), case.y.len());
     let u = f64::EPSILON;
-    let kf = 256.0 * (2 * n + 2 * m) as f64;
+    // the factor of the real checks times 16: complex arithmetic costs ~4 roundings per operation and
+    // nalgebra's complex SVD was seen to leave normal-equation residuals of ~1.3 x the real bound
+    // (silence seed 25); the seeded and genuine complex defects are off by 1e9 x this bound
+    let kf = 4096.0 * (2 * n + 2 * m) as f64;
     let eps = case.eps.unwrap_or(f64::EPSILON);
     let wv: Vec<C> = match &case.w {
         Some(w) => w.iter().map(|v| c(*v)).collect(),
